@@ -20,7 +20,7 @@ claimed = {
          "string builtins pad_*/split/find_*/replace with count: type and value errors and code-point results; every function node of evaluate passes its evaluated arguments to its helper in order; arity faults are raised exactly at `)`/`,` separators; "
          "lower/upper/trim*/starts_with/ends_with/replace return exactly the package-strings function of their arguments and raise invalid-type for non-strings; keys/values/items/object wildcard return one element per member (keys: each a member name), "
          "from_items accepts exactly arrays of [string, value] pairs, reverse reverses arrays element-wise, to_string is the identity on strings, sort/sort_by/max/min type errors, sum/avg folds and type errors. "
-         "Not covered: results of find_*/split/join beyond counts, types and code-point arithmetic; merge/zip/not_null cases of evaluate.",
+         "find_first/find_last with start and end: with a start at or below 0 and an end at or beyond the code-point count the call is exactly the whole-string search (offsets are code-point offsets: rune-table loop invariants), argument faults are reported whatever the start is (two genuine defects found and repaired here). zip evaluates every argument to an array and the i-th tuple holds the i-th element of each argument, in argument order; the result is no longer than any argument. sort returns a rearrangement of its argument (every element of either occurs in the other, equal lengths) that ascends under code-point order (strings) or decimal value (numbers) - the comparators' values are proved, slices.SortFunc is trusted to permute and to order under a strict weak order. Not covered: results of find_* for other windows, split/join beyond counts, types and code-point arithmetic; merge/not_null cases of evaluate.",
          "contracts + VC generation over go/ssa + SMT"),
  'C04': ("Proved for every token stream (ghost stream, arbitrary): each production consumes its closing token on every success path (filter, index, selectArray, "
          "selectObject, function*Arg, parse ends on End), list separators are commas, multi-select keys are identifiers, let bindings are `$name =`; lexer: "
@@ -34,7 +34,7 @@ claimed = {
          "contracts + VC generation over go/ssa + SMT"),
  'C08': ("Finite proof over error type tags: each public error type's Is answers for exactly one sentinel; evaluateError/parseError map every internal error type and sentinel to the "
          "specified category (errors.Is modelled by its documented algorithm over the repository's Is/Unwrap methods); Search/Compile/Expression.Search return nil with an error; "
-         "Expression.Search never yields a static category. Which internal error each builtin raises for a type fault or a value fault (integer conversion, negative count, pad length, from_items pairs) is pinned by the builtins' own clauses, now also tagged C08. Not covered: data-independence flow check.",
+         "Expression.Search never yields a static category. Which internal error each builtin raises for a type fault or a value fault (integer conversion, negative count, pad length, from_items pairs) is pinned by the builtins' own clauses, now also tagged C08. The per-element helpers and &&/|| propagate exactly the error evaluate returned; zip succeeds only if every argument evaluated to an array; find_first/find_last with start and end report an argument of the wrong type or a non-integral argument whatever the other arguments are. Not covered: data-independence flow check; propagation inside the other cases of evaluate.",
          "contracts + VC generation over go/ssa + SMT"),
  'C10': ("Proved: the binding-power table (rank order pipe<or<and<comparison<additive<multiplicative<flatten<wildcard<filter<dot<not<bracket, 0 otherwise); in parser.expression every "
          "operator is consumed only when its power exceeds the caller's and every recursive call passes exactly the consumed operator's power (left associativity), on return the next "
@@ -62,7 +62,7 @@ claimed = {
          "contracts + VC generation over go/ssa + SMT"),
  'C20': ("Proved: equal computes the specification's deep, type-strict equality specEq (arrays element-wise, objects key-wise with equal cardinality, numbers by decimal value, never across types); "
          "contains uses the same relation; isTrue is false exactly for null, false, empty string/array/object; filter keeps exactly the elements whose predicate value is truthy. "
-         "the ==, !=, &&, ||, ! cases of evaluate return mkBool(specEq), its negation, one of the operands unchanged, and mkBool(!truthy). Lemmas proved from the defining axioms of specEq: symmetric, reflexive (numbers: for values that are not NaN) and transitive on scalars, never true across JSON types, and symmetric on arrays provided it is on their elements (the induction step over the nesting depth). Not covered: the object case of these laws (needs cardinality reasoning), the induction over the depth itself.",
+         "the ==, !=, &&, ||, ! cases of evaluate return mkBool(specEq), its negation, one of the operands unchanged, and mkBool(!truthy). Lemmas proved from the defining axioms of specEq: symmetric, reflexive (numbers: for values that are not NaN) and transitive on scalars, never true across JSON types, and symmetric on arrays provided it is on their elements (the induction step over the nesting depth). The conversion and classification helpers equal calls (toDecimal, and through the support closure every non-recursive callee of a function under this property) are discharged under this property too. Not covered: the object case of these laws (needs cardinality reasoning), the induction over the depth itself.",
          "contracts + VC generation over go/ssa + SMT"),
  'C15': ("Determinism by elimination of its sources in sequential Go, as a sweep over every function reachable from the API: no store to a package-level variable, no go/select/channel instruction, no external callee without a (deterministic, functional) contract, "
          "and every loop over a map (10 of them) must carry a proved invariant tagged C15 that ties what the loop has computed to the set of members visited (let bindings, multi-select hashes, merge, object equality) or, for the permitted enumerations "
@@ -95,10 +95,10 @@ claimed = {
          "pad_* pads to max(width, code points) and requires a one-code-point pad, find_* results are code-point counts within the subject. Sweep over every function reachable from the API: every string the library turns into a value and every key it puts into an object "
          "starts and ends on code-point boundaries of its text (valid UTF-8 out for valid UTF-8 in) - including the lexer (position and token values stay on boundaries), the literal decoders (raw strings and quoted identifiers keep whole code points; a byte copied "
          "with WriteByte is accounted for together with the bytes that follow it) and the strings kept in the AST. Assumed: the expression text handed to the API is a whole string; A4 (matches of valid needles are boundary aligned), A7; facts about Go's UTF-8 segmentation "
-         "(an ASCII byte is never inside a longer unit). Not covered: which code points a stepped slice / reverse selects, ordering of strings beyond byte order.",
+         "(an ASCII byte is never inside a longer unit). find_first/find_last with start and end measure both in code points (rune-table loop invariants; an end between the code-point count and the byte length is clamped - a defect repaired here); sort orders strings by strings.Compare, i.e. by code point for valid UTF-8. Not covered: which code points a stepped slice / reverse selects, ordering of strings beyond byte order.",
          "contracts over a ghost rune table + utf8 sweep obligations + VC generation over go/ssa + SMT"),
  'C13': ("Proved: sort_by calls a stable sort on arrays it owns, Less is strictly the decimal128.Compare / byte order of the keys, Swap swaps items and keys together; the key of every element including a single one is evaluated (caller's scope) and must be a string or number; "
-         "max/min return an element value that no other element exceeds (resp. precedes) and fail exactly when a later element has another type; max_by/min_by return an element of the input whose key (the value evaluate yields for it) no other element's key exceeds (resp. precedes), stated over the graph of evaluate. sort succeeds only on arrays whose elements are all strings or all numbers (comparator literals under contract, invariant of the hidden comparison loop of slices.SortFunc), including one-element arrays. Assumed: contract of sort.Stable; slices.SortFunc calls its comparator with every element when there are two or more. Not covered: that the result of sort is ordered (the comparator's order), extremality for mixed representations.",
+         "max/min return an element value that no other element exceeds (resp. precedes) and fail exactly when a later element has another type; max_by/min_by return an element of the input whose key (the value evaluate yields for it) no other element's key exceeds (resp. precedes), stated over the graph of evaluate. sort succeeds only on arrays whose elements are all strings or all numbers (comparator literals under contract, invariant of the hidden comparison loop of slices.SortFunc), including one-element arrays. Assumed: contract of sort.Stable; slices.SortFunc calls its comparator with every element when there are two or more. sort's result is a rearrangement of the argument (equal length, every element of one occurs in the other) that ascends: no later string precedes an earlier one in code-point order, decimal128.Compare of an earlier and a later number is never positive - from the proved values of the two comparator literals (`pure.cmp`: strings.Compare of the two strings, decimal128.Compare of the two decimal values) and the trusted statement that slices.SortFunc leaves a permutation which ascends under a comparator that is a strict weak order on the elements (assumed only when the type flag says all elements are of one kind). Not covered: that sort_by's result is ordered by key (stability and the Less/Swap contracts are), multiplicities in the rearrangement, extremality for mixed representations.",
          "contracts + loop invariants + VC generation over go/ssa + SMT"),
 }
 checks = []
@@ -125,7 +125,7 @@ m = {"version": 1,
 import subprocess
 try:
     out = subprocess.run(['git','-C','/repo','log','--format=%h %s'],capture_output=True,text=True).stdout.split('\n')
-    m['hooks']['source_commits'] = [l.split()[0] for l in out if 'verif hooks' in l]
+    m['hooks']['source_commits'] = [l.split()[0] for l in out if 'verif hooks' in l or (len(l.split()) > 1 and l.split()[1] == 'verif:')]
 except Exception: pass
 json.dump(m, open('/verif/MANIFEST.json','w'), indent=1)
 print(len(checks), 'claimed;', len(na), 'not applicable')
